@@ -10,3 +10,24 @@ impl<'tera> VirtualMachine<'tera> {
             r is Ok ==> final(state).block_buffer@ == interp_block(self, *old(state)),
     { unimplemented!() }
 }
+/// what render_to writes into an empty writer that never fails (its own contract: obligation vm_render/render_to)
+pub uninterp spec fn rt_spec(vm: VirtualMachine, block: Option<Seq<char>>, ctx: &Context, gctx: &Context) -> Result<Seq<u8>, Error>;
+pub uninterp spec fn utf8_text(b: Seq<u8>) -> Option<Seq<char>>;
+/// `self.render_to(block, ctx, gctx, &mut vec)`: a Vec<u8> never fails, so the call fails only if rendering does
+#[verifier::external_body]
+pub fn vx_render_to_mut<'tera>(vm: &mut VirtualMachine<'tera>, block: Option<&str>, ctx: &Context, gctx: &Context, out: &mut VxWriter) -> (r: TeraResult<()>)
+    requires old(out).bytes@.len() == 0
+    ensures
+        r is Ok <==> rt_spec(*old(vm), (match block { Some(b) => Some(b@), None => None::<Seq<char>> }), ctx, gctx) is Ok,
+        r is Ok ==> final(out).bytes@ == rt_spec(*old(vm), (match block { Some(b) => Some(b@), None => None::<Seq<char>> }), ctx, gctx)->Ok_0
+{ unimplemented!() }
+#[verifier::external_body]
+pub fn vx_new_writer() -> (r: VxWriter) ensures r.bytes@.len() == 0 { unimplemented!() }
+#[verifier::external_body]
+pub struct VxUtf8Error { _p: () }
+impl Error { #[verifier::external_body] pub fn from_utf8(e: VxUtf8Error) -> Error { unimplemented!() } }
+/// `String::from_utf8(vec)`
+#[verifier::external_body]
+pub fn vx_string_from_writer(w: VxWriter) -> (r: Result<String, VxUtf8Error>)
+    ensures r is Ok <==> utf8_text(w.bytes@) is Some, r is Ok ==> r->Ok_0@ == utf8_text(w.bytes@)->Some_0
+{ unimplemented!() }
